@@ -816,7 +816,9 @@ def main(tier='quick', seed=0, part=None):
         "at most 2 non-default ones x terminate() turning true at its t-th "
         "call; race: exchange() in one thread against sense()/listen()/close() "
         "in another, every schedule with <= 2 preemptions - the driver is "
-        "never handed a target other than the frontend's current one; "
+        "never handed a target other than the frontend's current one, and "
+        "sense()/connect()/listen() against close() of another thread end "
+        "in a return value or IOError; "
         "defaults: an empty option dictionary behaves like one that "
         "spells a documented default out (option kind x environment x "
         "terminate time); faults: for default callbacks (and on-connect false) the n-th "
